@@ -294,7 +294,7 @@ class Sym:
 
 PAYLOAD_POOL = ["1", "0", "42", "21.5", "on", "", "Off", "HeatOn", "ff00ff", "ff00ff80", "55.7,12.5,8",
                 "100", "101", "-1", "hello world", "ünï", "a,b", "x" * 30, "١٢", " 7", "1_0", "50.5",
-                "1e2", "nan", "AutoChangeOver", "Auto", "stable"]
+                "1e2", "nan", "AutoChangeOver", "Auto", "stable", "1e999", "inf", "-Infinity", "1e-400", "٥٠"]
 
 
 _SCHEMAS = {}
@@ -312,7 +312,7 @@ def valid_payload_for(rng, const, mtype, sub):
             try:
                 schema(p)
                 good.append(p)
-            except vol.Invalid:
+            except Exception:  # noqa: BLE001  (vol.Invalid, or an internal error of a broken validator)
                 pass
         _SCHEMAS[key] = good or [""]
     return rng.choice(_SCHEMAS[key])
@@ -409,7 +409,9 @@ def gen_history(rng, version, n, persist=False, ota=True, sleep=True, malformed=
             sub = rng.choice(vals) if vals and rng.random() < 0.7 else int(rng.choice(setreq))
             if rng.random() < 0.05:
                 sub = rng.choice([str(sub), 999, -1])
-            if rng.random() < 0.8:
+            if rng.random() < 0.12:
+                p = ""      # falsy but legal for free-text value types
+            elif rng.random() < 0.8:
                 p = valid_payload_for(rng, const, int(mt.set), sub if isinstance(sub, int) and
                                       sub in [int(x) for x in setreq] else int(setreq[0]))
             else:
